@@ -383,7 +383,11 @@ def heights(cell):
 def precond(a, margin=0.15, bond=0.65, overlap=-0.6):
     """Independent bonding / overlap precondition with a safety margin.
     Returns None if the sample qualifies, else the reason it is discarded."""
-    D = a.get_all_distances(mic=True)
+    c = a.cell.array
+    if not c.any(axis=1).all():
+        _, D = get_distances(a.positions, cell=complete_cell(c), pbc=a.pbc)
+    else:
+        D = a.get_all_distances(mic=True)
     r = covalent_radii[a.numbers]
     R = D - r[:, None] - r[None, :]
     np.fill_diagonal(R, np.inf)
@@ -479,12 +483,21 @@ def gen_crystal(rng, maxn=300, noises=(0, 0.02, 0.05), bulk_share=0.25):
     except Exception as e:
         return None, "buildfail:" + type(e).__name__
     if len(a) > maxn:
-        return None, "large"
+        # dense crystals (e.g. diamond C: 512 atoms) only reach the required cell heights in
+        # larger supercells; a share of them is admitted
+        if not (kind == "bulk" and len(a) <= 520 and rng.random() < 0.5):
+            return None, "large"
     if not prim_ok(conv):
         return None, "prim"
     pc = precond(a)
     if pc:
         return None, "pre-" + pc
+    if kind == "slab" and not pbcz and rng.random() < 0.15:
+        # the non-periodic cell vector does not span the slab (zero or much too short)
+        cell = a.cell.array.copy()
+        cell[2] = [0.0, 0.0, 0.0 if rng.random() < 0.6 else float(rng.uniform(1.0, 4.0))]
+        a.set_cell(cell, scale_atoms=False)
+        recipe["short_c"] = True
     b, perm = present(a, noise, rng)
     if noise:
         pc = precond(b, margin=0.15 - 2 * noise)
@@ -578,6 +591,13 @@ def gen_stack(rng, maxn=300):
         st.center(vacuum=7, axis=2)
     recipe["superlattice"] = superlattice
     st.pbc = [True, True, pbcz]
+    if not pbcz and rng.random() < 0.3:
+        # the non-periodic cell vector does not span the stack: zero (what ase.build gives
+        # without vacuum) or much too short
+        cell = st.cell.array.copy()
+        cell[2] = [0.0, 0.0, 0.0 if rng.random() < 0.6 else float(rng.uniform(1.0, 4.0))]
+        st.set_cell(cell, scale_atoms=False)
+        recipe["short_c"] = True
     if len(st) > maxn:
         return None, "large"
     pc = precond(st)
@@ -636,14 +656,16 @@ def gen_monolayer(rng, maxn=300):
     u = MONO[name]()
     u.pbc = [True, True, False]
     n = int(rng.integers(3, 7))
-    a = u * (n, n, 1)
+    # square supercells mostly; sometimes anisotropic ones down to one-cell-wide ribbons
+    m = n if rng.random() < 0.6 else int(rng.integers(1, n + 1))
+    a = u * ((n, m, 1) if rng.random() < 0.5 else (m, n, 1))
     pz = bool(rng.integers(2))
     a.pbc = [True, True, pz]
     if len(a) > maxn:
         return None, "large"
     noise = [0.0, 0.02][int(rng.integers(2))]
     b, perm = present(a, noise, rng, rotate=bool(rng.integers(2)))
-    recipe = {"family": "monolayer", "material": name, "rep": n, "pbcz": pz, "noise": noise, "n": len(b)}
+    recipe = {"family": "monolayer", "material": name, "rep": n, "rep2": m, "reps4": bool(n == 4 or m == 4), "pbcz": pz, "noise": noise, "n": len(b)}
     return (b, recipe, u, a), None
 
 
